@@ -845,6 +845,10 @@ func ParseWhileLoopStmt(p *ParserZH) *syntax.WhileLoopStmt {
 		panic(p.getInvalidSyntaxPeek())
 	}
 	block := ParseBlockStmt(p, blockIndent)
+	// a block has at least one statement (a blank last line is no block)
+	if len(block.Children) == 0 {
+		panic(p.getInvalidSyntaxPeek())
+	}
 	return &syntax.WhileLoopStmt{
 		TrueExpr:  trueExpr,
 		LoopBlock: block,
@@ -957,6 +961,10 @@ func ParseBranchStmt(p *ParserZH) *syntax.BranchStmt {
 			panic(p.getUnexpectedIndentPeek())
 		}
 		condBlock = ParseBlockStmt(p, blockIndent)
+		// a block has at least one statement (a blank last line is no block)
+		if len(condBlock.Children) == 0 {
+			panic(p.getInvalidSyntaxPeek())
+		}
 
 		// #4. fill data
 		switch hState {
@@ -1201,6 +1209,10 @@ func parseIteratorStmtRest(p *ParserZH, idList []*syntax.ID) *syntax.IterateStmt
 		panic(p.getInvalidSyntaxPeek())
 	}
 	block := ParseBlockStmt(p, blockIndent)
+	// a block has at least one statement (a blank last line is no block)
+	if len(block.Children) == 0 {
+		panic(p.getInvalidSyntaxPeek())
+	}
 
 	return &syntax.IterateStmt{
 		IterateExpr:  targetExpr,
